@@ -13,6 +13,7 @@ import types
 import z3
 
 from segvc.core import BOOL, CLASSES, INF, INT, NEG_INF, OBJ, REAL, ArrT, H, ODictT, RefT, SetT, Sym, register_class
+from segvc.interp import Builtin
 from segvc.unit import Case, ClassSpec, Contract, LemmaUnit, LoopSpec, MethodUnit
 
 ASYNCIO = "anyio/_backends/_asyncio.py"
@@ -598,6 +599,41 @@ class TotalGetterUnit(LimUnit):
         ip.ctx.oblige("CapacityLimiter.total_tokens/post:reports_total", z3.BoolVal(exc is None) if exc is not None else ip.term(ret, REAL) == total(pre, a.self), "post")
 
 
+class _BorrowerSnapshot:
+    """value of `tuple(self._borrowers)`: a snapshot of the borrower set (the set term at the time of the call)"""
+
+    def __init__(self, ref):
+        self.ref = ref
+
+
+def _b_tuple(ip, x):
+    if not isinstance(x, Sym):
+        raise NotImplementedError("tuple() of something other than the borrower set")
+    return _BorrowerSnapshot(x.t)
+
+
+class StatisticsUnit(LimUnit):
+    """`CapacityLimiter.statistics()`: (borrowed, total, borrowers, waiting) are the true counts; nothing changes.
+    `self.borrowed_tokens` / `self.total_tokens` are resolved through the real property bodies."""
+
+    method = "statistics"
+    contract = None
+    globals = {"CapacityLimiterStatistics": Builtin("CapacityLimiterStatistics", lambda ip, *a: tuple(a)), "tuple": Builtin("tuple", _b_tuple)}
+
+    def on_exit(self, ip, pre, a, exc, ret):
+        s = a.self
+        ok = exc is None and isinstance(ret, tuple) and len(ret) == 4 and isinstance(ret[2], _BorrowerSnapshot)
+        ip.ctx.oblige("CapacityLimiter.statistics/post:returns_four_fields", z3.BoolVal(ok), "post")
+        if ok:
+            q = wq(pre, s)
+            ip.ctx.oblige(
+                "CapacityLimiter.statistics/post:reports_the_true_counts",
+                z3.And(ip.term(ret[0], INT) == card(pre, s), ip.term(ret[1], REAL) == total(pre, s), ret[2].ref == pre.f(C, "_borrowers", s), ip.term(ret[3], INT) == q.len),
+                "post",
+            )
+            ip.ctx.oblige("CapacityLimiter.statistics/post:unchanged", unchanged(pre, H(ip.st), s), "post")
+
+
 class EnvNothing(LemmaUnit):
     """The asyncio.Event of a waiter is private to the limiter: the environment cannot set it; cancelling the
     waiting task changes no limiter state (the waiter's own except-clause does, and is verified there)."""
@@ -620,4 +656,4 @@ class IntegralLemma(LemmaUnit):
         ip.ctx.oblige(f"{self.name}/lemma:strict_form_equals_leq", (z3.ToReal(c) - 1 < z3.ToReal(n)) == (c <= n), "lemma")
 
 
-UNITS = [IntegralLemma, InitUnit, SetterUnit, NotifyUnit, AcqNowaitOboUnit, ReleaseOboUnit, AcquireOboUnit, AcquireUnit, ReleaseUnit, AcqNowaitUnit, BorrowedUnit, AvailableUnit, TotalGetterUnit]
+UNITS = [IntegralLemma, InitUnit, SetterUnit, NotifyUnit, AcqNowaitOboUnit, ReleaseOboUnit, AcquireOboUnit, AcquireUnit, ReleaseUnit, AcqNowaitUnit, BorrowedUnit, AvailableUnit, TotalGetterUnit, StatisticsUnit]
